@@ -21,6 +21,7 @@ int main(int argc, char** argv) {
         std::string f = i < feats.size() ? feats[i] : "mix";
         auto obs = parseObs(sink.bytes);
         printf("%-14s st=%d bytes=%zu obs=%zu ubsan=%zu %s\n", f.c_str(), st, sink.bytes.size(), obs.size(), ubsanTake().size(), st ? t.getLastError() : "");
+        { size_t q = sink.bytes.find("\xF0\x9F\x98\x80"); if (q != std::string::npos) printf("     4-byte char at output offset %zu (mod 512 = %zu), encoding decl: %.60s\n", q, q % 512, sink.bytes.c_str()); }
         if (st) { ++bad; if (verbose) printf("%s\n", s.xsl.c_str()); }
         else if (verbose && i < feats.size()) { for (size_t k = 0; k < obs.size() && k < 3; ++k) printf("     %s %s [%s]\n", obs[k].f.c_str(), obs[k].n.c_str(), obs[k].v.substr(0, 150).c_str()); }
     }
